@@ -3,6 +3,7 @@ package c08
 import (
 	"fmt"
 	"math"
+	"reflect"
 	"sort"
 
 	"github.com/unixpickle/model3d/model2d"
@@ -128,6 +129,7 @@ type tree interface {
 	nearest(p [3]float64) [3]float64
 	dist(p [3]float64) float64
 	knn(k int, p [3]float64) [][3]float64
+	knnKept(k int, p [3]float64) func() [][3]float64 // the library's slice is kept; the reader converts it when asked
 	ball(p [3]float64, r float64) bool
 	slice() [][3]float64
 	sq(p, q [3]float64) float64 // the library's own SquaredDist
@@ -150,6 +152,16 @@ func (t tree3) knn(k int, p [3]float64) [][3]float64 {
 		out = append(out, [3]float64{c.X, c.Y, c.Z})
 	}
 	return out
+}
+func (t tree3) knnKept(k int, p [3]float64) func() [][3]float64 {
+	res := t.t.KNN(k, xyz(p))
+	return func() [][3]float64 {
+		var out [][3]float64
+		for _, c := range res {
+			out = append(out, [3]float64{c.X, c.Y, c.Z})
+		}
+		return out
+	}
 }
 func (t tree3) ball(p [3]float64, r float64) bool { return t.t.SphereCollision(xyz(p), r) }
 func (t tree3) slice() [][3]float64 {
@@ -180,6 +192,16 @@ func (t tree2) knn(k int, p [3]float64) [][3]float64 {
 		out = append(out, [3]float64{c.X, c.Y, 0})
 	}
 	return out
+}
+func (t tree2) knnKept(k int, p [3]float64) func() [][3]float64 {
+	res := t.t.KNN(k, c2(p))
+	return func() [][3]float64 {
+		var out [][3]float64
+		for _, c := range res {
+			out = append(out, [3]float64{c.X, c.Y, 0})
+		}
+		return out
+	}
 }
 func (t tree2) ball(p [3]float64, r float64) bool { return t.t.SphereCollision(c2(p), r) }
 func (t tree2) slice() [][3]float64 {
@@ -262,6 +284,8 @@ func checkTree(c treeCase, o *kit.Obs) error {
 		return fmt.Errorf("Leaf() = %v for %d points (documented: true iff the tree contains 1 or fewer points)", tr.leaf(), n)
 	}
 
+	var prevKept func() [][3]float64
+	var prevRes [][3]float64
 	for qi, q := range c.Q {
 		if !finite(q.P[:]...) || !finite(q.R) || q.R < 0 || q.K < 0 {
 			return fmt.Errorf("%w: bad query", kit.ErrInfra)
@@ -303,7 +327,15 @@ func checkTree(c treeCase, o *kit.Obs) error {
 			}
 		}
 		// KNN
-		res := tr.knn(q.K, p)
+		kept := tr.knnKept(q.K, p)
+		res := kept()
+		// a result belongs to the caller: later queries (of any kind, on this tree) leave it as it was returned
+		if prevKept != nil {
+			if now := prevKept(); !reflect.DeepEqual(now, prevRes) {
+				return fmt.Errorf("query %d: the result of the previous KNN query read %v when it was returned and reads %v after this KNN(%d, %v)", qi, prevRes, now, q.K, p)
+			}
+		}
+		prevKept, prevRes = kept, res
 		wantLen := q.K
 		if n < wantLen {
 			wantLen = n
